@@ -39,11 +39,11 @@ instance : LE Lim := ⟨Lim.le⟩
 structure Limits where
   pathMax : Lim        -- `PATH_MAX`: md_root, md_path, me_path, mh_path, mh_maildir, ev_home, ev_tmpdir, the templates
   nameMax1 : Lim       -- `NAME_MAX + 1`: me_name, mh_subdir, generated names, the `new`/`cur` component
-  hostMax : Lim        -- `sizeof(ev_hostname)` = 256
+  hostMax : Lim        -- `sizeof(ev_hostname)` = `Gen.evHostnameSize` (extern.h, regenerated)
 deriving Repr, DecidableEq
 
 /-- The platform: the values the rest of the model is written at. -/
-def stdLimits : Limits := { pathMax := .fin PATH_MAX, nameMax1 := .fin NAME_MAX1, hostMax := .fin 256 }
+def stdLimits : Limits := { pathMax := .fin PATH_MAX, nameMax1 := .fin NAME_MAX1, hostMax := .fin Gen.evHostnameSize }
 
 /-- Ideal strings: nothing ever overflows. -/
 def Limits.unbounded : Limits := { pathMax := .inf, nameMax1 := .inf, hostMax := .inf }
